@@ -168,7 +168,7 @@ def split_group_text(smt2, n_goals):
     return head, ['\n(assert' + b for b in hyps], ['\n(assert' + g for g in goals]
 
 
-def relevant(hyp_syms, goal_syms, rounds=3):
+def relevant(hyp_syms, goal_syms, rounds=3, hub_frac=0.5):
     """Indices of the hypotheses that share a (non-hub) symbol with the goal,
     transitively for a few rounds."""
     n = len(hyp_syms)
@@ -176,7 +176,7 @@ def relevant(hyp_syms, goal_syms, rounds=3):
     for hs in hyp_syms:
         for x in hs:
             count[x] = count.get(x, 0) + 1
-    hubs = {x for x, c in count.items() if n >= 8 and c > 0.5 * n}
+    hubs = {x for x, c in count.items() if n >= 8 and c > hub_frac * n}
     cur = set(goal_syms) - hubs
     chosen = set()
     for _ in range(rounds):
@@ -235,8 +235,8 @@ def solve_one(args):
     # robust: fewer quantifiers to instantiate); only `unsat` is accepted from it
     if len(hyp_blocks) == len(hyp_syms) and rec['kind'] != 'canary' and opts.get('relevance', True):
         tried_sizes = set()
-        for rounds, sd in ((3, seed), (1, seed), (2, seed + 7)):
-            sel_idx = relevant(hyp_syms, goal_syms, rounds=rounds)
+        for rounds, sd, frac in ((3, seed, 0.5), (1, seed, 0.12), (1, seed, 0.5), (2, seed + 7, 0.5)):
+            sel_idx = relevant(hyp_syms, goal_syms, rounds=rounds, hub_frac=frac)
             if len(sel_idx) >= len(hyp_blocks) or len(sel_idx) in tried_sizes:
                 continue
             tried_sizes.add(len(sel_idx))
@@ -246,7 +246,7 @@ def solve_one(args):
                 ctx = z3.Context()
                 s_ = z3.Solver(ctx=ctx)
                 s_.from_string(small)
-                s_.set('timeout', max(1000, timeout_ms // 3))
+                s_.set('timeout', 1200 if frac < 0.5 else max(1000, timeout_ms // 3))
                 s_.set('random_seed', sd)
                 if str(s_.check()) == 'unsat':
                     rec['seconds'] = round(time.time() - t1, 4)
